@@ -149,7 +149,7 @@ def run_order_script(world, script: dict, x: int, prog: dict, specs: dict, timeo
                 notes.append(f"close: {type(e).__name__}: {e}")
             close()
 
-    finished, res = W.run_in_thread(body, timeout)
+    finished, res = W.run_in_thread(body, timeout, inline=http)
     if finished and res[0] == "exc":
         notes.append(f"harness: {res[1]!r}")
     if not finished:
@@ -210,7 +210,7 @@ def run_content_case(world, case: dict, x: int) -> dict:
                 pass
             close()
 
-    finished, res = W.run_in_thread(body, 8.0)
+    finished, res = W.run_in_thread(body, 8.0, inline=world.name == "http")
     failed = (not finished) or res[0] == "exc"
     if finished and res[0] == "exc":
         notes.append(f"{type(res[1]).__name__}: {str(res[1])[:200]}")
@@ -234,9 +234,10 @@ PEER_EXTRAS = {
     "absent": [None],
     "obj_plain": [b'{"k": "v", "n": "1"}', '{"ключ": "значение", "": "empty key"}'.encode()],
     "obj_level": [b'{"level": "x"}'], "obj_message": [b'{"message": "m"}'], "obj_self": [b'{"self": "s"}'],
-    "obj_both": [b'{"level": "l", "message": "m", "k": "v"}', b'{"level": "l", "message": "m", "self": "s", "extra": "e"}'],
+    "obj_both": [b'{"level": "l", "message": "m", "k": "v"}', b'{"level": "l", "message": "m", "self": "s", "extra": "e"}',
+                 b'{"level": 3, "message": null}'],
     "obj_empty": [b"{}"],
-    "obj_nonstr": [b'{"n": 5, "f": 1.5, "b": true, "z": null, "o": {"a": [1]}, "l": [1, 2]}', b'{"level": 3, "message": null}'],
+    "obj_nonstr": [b'{"n": 5, "f": 1.5, "b": true, "z": null, "o": {"a": [1]}, "l": [1, 2]}', b'{"big": 123456789012345678901234567890, "e": 1e400}'],
     "array": [b'[1, "a"]', b"[]", b'[["k", "v"]]'], "string": [b'"just a string"', b'""'], "number": [b"42", b"1.5e3", b"-0"],
     "null": [b"null", b"true", b"false"], "invalid": [b"{not json", b'{"a": }', b"{'a': 1}", b"NaN,", b'{"a": 1} trailing'],
     "empty": [b""], "nonutf8": [b'{"k": "\xff\xfe"}', b"\xff", b"\xc3("],
@@ -382,7 +383,7 @@ def run_peer_case(case: dict, v: dict, x: int, real_pipe: bool = False) -> dict:
                 except Exception:  # noqa: BLE001
                     pass
 
-    finished, res = W.run_in_thread(body_fn, 10.0)
+    finished, res = W.run_in_thread(body_fn, 10.0, inline=not real_pipe)
     failed = (not finished) or res[0] == "exc"
     exc = res[1] if (finished and res[0] == "exc") else None
     if exc is not None:
